@@ -29,7 +29,7 @@ from ..flow import FlowAnalysis
 def new_context_rule(ctx: Ctx, rid: str) -> None:
     ctx.rule(rid, "runtime.new_context (and Context.derived / get_all consumers) never stores into a dict owned by the caller: writes happen on a fresh copy on every path (split on `shared` / `locals`)")
     fi = ctx.repo.func("runtime:new_context")
-    fa = FlowAnalysis(fi.node)
+    fa = FlowAnalysis(fi.nnode)  # normal form: `p = a if shared else b` is the if / else it abbreviates (paths split on `shared`)
     seen = set()
     for mu in fa.mutations:
         k = (mu.name, mu.kind)
@@ -54,9 +54,19 @@ def new_context_rule(ctx: Ctx, rid: str) -> None:
     # what an included / imported template receives: the template's own top-level variables
     # override the names it was rendered with (a `{% set %}` shadows a context variable)
     ga = ctx.repo.func("runtime:Context.get_all")
-    merges = [(r, astq.merge_order(r.value)) for r in astq.returns(ga.node) if r.value is not None and astq.merge_order(r.value) is not None]
+    class _V:  # a returned value (directly, or through the local that is returned)
+        def __init__(self, value: ast.AST) -> None:
+            self.value = value
+
+    rvals: list[_V] = []
+    for r in astq.returns(ga.node):
+        if isinstance(r.value, ast.Name):
+            rvals += [_V(a.value) for a in ast.walk(ga.node) if isinstance(a, ast.Assign) and any(isinstance(t_, ast.Name) and t_.id == r.value.id for t_ in a.targets)]
+        elif r.value is not None:
+            rvals.append(_V(r.value))
+    merges = [(r, astq.merge_order(r.value)) for r in rvals if astq.merge_order(r.value) is not None]
     ok_ga = len(merges) == 1 and merges[0][1] == ["self.parent", "self.vars"]
-    others = sorted(ast.unparse(r.value) for r in astq.returns(ga.node) if r.value is not None and astq.merge_order(r.value) is None)
+    others = sorted(ast.unparse(r.value) for r in rvals if astq.merge_order(r.value) is None)
     ctx.check(ok_ga and set(others) <= {"self.parent", "self.vars"}, "get_all:precedence", "runtime:Context.get_all", f"merge order {merges[0][1] if merges else None}",
               f"Context.get_all must overlay self.vars on self.parent (later wins): it returns `{ast.unparse(merges[0][0].value) if merges else None}` with precedence {merges[0][1] if merges else None}; with the parent on top an include / import-with-context sees the render-time value of a name the including template has re-bound with `{{% set %}}`",
               ga.loc(), detail={"merge": merges[0][1] if merges else None, "shortcuts": others})
